@@ -137,3 +137,18 @@ Definition check_sched (c : scase) : bool :=
        (list_eqb (list_eqb (fun (a b : key * nat) => andb (String.eqb (fst a) (fst b)) (Nat.eqb (snd a) (snd b))))
                  (map (fun th => map (fun kr : key * tokres => (fst kr, tokres_code (snd kr))) (t_res th)) (snd g))
                  results).
+
+(* constructors with fully known argument types: the harness emits its cases through these (faster to elaborate
+   than nested anonymous tuples) *)
+Definition mkX (sc se : bool) (keys : option (list string)) (indx : option (Z * list Z))
+           (tokx : option (list tok * nat)) : expect := ((sc, se, keys), indx, tokx).
+Definition mkS (d : opd) (e : expect) : opd * expect := (d, e).
+Definition mkH (fuel : nat) (lc : lconf) (pl : option icfg) (shared scan : bool) (steps : list (opd * expect)) : hcase :=
+  (fuel, lc, pl, shared, scan, steps).
+Definition mkE (i k : nat) (s : bool) (keys : option (list key)) : event := (i, k, s, keys).
+Definition mkR (k : key) (c : nat) : key * nat := (k, c).
+Definition mkI (k : key) (ign : bool) : key * bool := (k, ign).
+Definition mkSC (o : order) (cfg : tcfg) (inputs : list (list (key * bool))) (sched : list nat) (log : list event)
+           (results : list (list (key * nat))) : scase := (o, cfg, inputs, sched, log, results).
+Definition TOKS (l : list tok) (code : nat) : option (list tok * nat) := Some (l, code).
+Definition IND (p : Z) (st : list Z) : option (Z * list Z) := Some (p, st).
